@@ -35,6 +35,15 @@ def libCodecOf (a : Int) : Int := a % ((Gen.RecordConsts.compressionMask + 1 : N
 /-- `Attributes.Control()`: `a & Control != 0` with the extracted `Control` constant (a power of two) -/
 def libIsControl (a : Int) : Bool := (a / (Gen.RecordConsts.controlConst : Int)) % 2 = 1
 
+/-- `attributes & <mask> != 0` for the masks the decoder tests NOW (Gen/RecordConsts: one mask, the timestamp type, since
+fix C05-D30; none before) -/
+def maskTest (masks : List Nat) (a : Int) : Bool := masks.any fun m => (a / (m : Int)) % 2 = 1
+
+/-- readFromVersion2: `Attributes(attributes)&logAppendTime != 0` → every record carries `maxTimestamp` -/
+def libLogAppendV2 (a : Int) : Bool := maskTest Gen.RecordConsts.stampMasksV2 a
+/-- readFromVersion1: the same test on the wrapper message's attributes -/
+def libLogAppendV1 (a : Int) : Bool := maskTest Gen.RecordConsts.stampMasksV1 a
+
 def libVarBytes (bs : Bytes) : Option (Option Bytes × Bytes) :=
   match readVarint bs with
   | none => none
@@ -138,7 +147,8 @@ def libReadV2 (crc : Bytes → Nat) (dec : Int → Bytes → Option Bytes) (bs :
                   | some p =>
                     if crc body ≠ c then .err                -- "crc32 checksum mismatch"
                     else if f.count < 0 then .err            -- make([]optimizedRecord, numRecords) panics
-                    else .ok (libIsControl f.attributes) (libRecords f.baseOffset f.firstTs f.count.toNat p) rest
+                    else .ok (libIsControl f.attributes)
+                      ((libRecords f.baseOffset f.firstTs f.count.toNat p).map (stamp (libLogAppendV2 f.attributes) f.maxTs)) rest
 
 /-- `readMessage`: returns attributes, the record and the rest -/
 def libReadMsg (crc : Bytes → Nat) (bs : Bytes) : Option (Int × Msg × Bytes) :=
@@ -189,9 +199,11 @@ def libReadV1 (crc : Bytes → Nat) (dec : Int → Bytes → Option Bytes) (bs :
           match libInner crc inner.length inner with
           | none => .err
           | some ms =>
+            -- `wrapperLogAppend := magicByte == 1 && attributes&logAppendTime != 0`: the wrapper's timestamp for all
+            let on := decide (m.magic = 1) && libLogAppendV1 attrs
             if m.offset ≠ 0 ∧ ms ≠ [] then
-              .ok false (ms.map fun x => { recOfMsg x with offset := m.offset - (lastOff ms - x.offset) }) rest
-            else .ok false (ms.map recOfMsg) rest
+              .ok false (ms.map fun x => stamp on m.ts { recOfMsg x with offset := m.offset - (lastOff ms - x.offset) }) rest
+            else .ok false (ms.map fun x => stamp on m.ts (recOfMsg x)) rest
 
 /-- `(*RecordSet).ReadFrom`: the decoded entries (control flag, records) up to the end or the first error -/
 def libReadSet (c : Crcs) (dec : Int → Bytes → Option Bytes) : Nat → Bytes → List (Bool × List Rec)
